@@ -301,7 +301,7 @@ class MotionMonitor(Monitor):
                     sample=sample_of(case, tr))
 
 
-BASE = dict(zmoves=True, g92e=True, ext=True)
+BASE = dict(zmoves=True, g92e=True, ext=True, beds=True)
 
 
 def mk(**kw):
